@@ -151,6 +151,9 @@ func (r *Reporter) getFileLines(filename string) []string {
 
 	var lines []string
 	scanner := bufio.NewScanner(strings.NewReader(string(content)))
+	// Lines may be longer than bufio.MaxScanTokenSize (minified or generated
+	// code); without a larger limit the scanner silently stops at such a line.
+	scanner.Buffer(nil, len(content)+1)
 	for scanner.Scan() {
 		lines = append(lines, scanner.Text())
 	}
